@@ -195,7 +195,8 @@ def check_property(prop, tier, seed, replay=None):
             if pins.get(prop.MODULE + ".v") != cur:
                 broken.append("props/%s.v does not match its pinned statement hash" % prop.MODULE)
         # ---- proof obligations
-        targets = (["props/%s.vo" % prop.MODULE] if prop.MODULE else []) + list(prop.EXTRA_TARGETS)
+        targets = (["props/%s.vo" % prop.MODULE] if prop.MODULE else []) + list(prop.EXTRA_TARGETS) + \
+                  ["model/Run.vo", "model/Extra.vo", "gen/Kernels.vo"]
         ok_make, mlog = C.coq_make(targets)
         checker_cmd = "cd coq && make -j%d %s" % (C.NCPU, " ".join(targets))
         obligations = len(prop.THEOREMS) + n_gen
